@@ -4,13 +4,16 @@ import TracklibVerif.Model.Proj
 `Model/Proj.lean` has the loop twice: the `none`-state forms (`polyLoop / projPolyligne / polyLoopXY / projPolyligneXY`:
 the sentinel is "no current minimum", every distance beats it — the forms the theorems of `Props/C20.lean` are about) and
 the sentinel-faithful S-forms (`polyLoopS / projPolyligneS / polyLoopXYS / projPolyligneXYS`: the test is `dist < inf`
-as in the code — the forms `Tie/C20.lean` proves equal to the translated source on ALL inputs). This file proves that
+as in the code, and the lines after the loop — `if distmin == 1e400: distmin = math.sqrt((x - xproj) ** 2 + (y - yproj) ** 2)`,
+the code since the `fix:` commit 563eeba — are evaluated literally on the code's state by `finishS`, with the squaring `sq` a
+parameter — the forms `Tie/C20.lean` proves equal to the translated source on ALL inputs). This file proves that
 they are EQUAL whenever every distance the loop meets (on a segment that is not skipped and on which `proj_segment`
-returns) is `< inf`, and that this hypothesis is what separates them (`projPolyligneXYS_single_not_lt`).
+returns) is `< inf`, a value `< inf` is not `== inf`, `inf == inf`, and `sq v = .ok (v * v)`; and that the first hypothesis is
+what separates the loops (`projPolyligneXYS_single_not_lt`).
 
 Core Lean only, bare operation classes: nothing is assumed of the scalar type, so the statements hold for IEEE doubles
-(`inf = +∞`: the hypothesis says "no distance is `inf`/NaN") as well as for an ordered field (any `inf` above the
-distances). -/
+(`inf = +∞`: the hypotheses say "no distance is `inf`/NaN, no square overflows into an `OverflowError`") as well as for an
+ordered field (any `inf` above the distances, `sq v := .ok (v * v)`). -/
 namespace TV.Proj
 
 /-- a distance `< inf` is judged by the code's test exactly as by the `none`-state test -/
